@@ -1,6 +1,7 @@
 package main
 
 import (
+	"math/big"
 	"fmt"
 	"strings"
 )
@@ -61,6 +62,25 @@ func genC07(e *emitter, tier string, seed uint64) {
 			for _, ns := range nasty {
 				for kind := 0; kind < 2; kind++ {
 					total(f1|f2, ns[0], ns[1], kind, 0)
+				}
+			}
+		}
+	}
+	// signature hashing at the edges of the transaction: the checked input index equal to / beyond the number of outputs
+	// (SINGLE has no matching output there), every hash type byte class, well-formed but unrelated signature and key
+	{
+		k := genKey(r)
+		fake := append(derEncode(new(big.Int).SetBytes(append([]byte{0x01}, r.bytes(31)...)), new(big.Int).SetBytes(append([]byte{0x01}, r.bytes(30)...))), 0)
+		for _, shape := range [][2]int{{2, 1}, {1, 0}, {3, 2}, {3, 1}, {1, 1}} {
+			txs := genSigTx(r, shape[0], shape[1], false)
+			d := descTx(txs)
+			for idx := 0; idx < shape[0]; idx++ {
+				for _, ht := range []byte{0x01, 0x02, 0x03, 0x41, 0x42, 0x43, 0x63, 0x81, 0x83, 0xc1, 0xc3, 0xe3} {
+					sig := append(append([]byte{}, fake[:len(fake)-1]...), ht)
+					for _, fl := range []int{0, fForkID, fForkID | fAfterGenesis, fStrictEnc} {
+						res := e.run("IX.total", fmt.Sprint(fl), hexE(rawPush(sig)), hexE(append(rawPush(k.pubC), 0xac)), d, fmt.Sprint(idx), "1000", "1")
+						e.note("sighash-edge." + strings.Fields(res)[0])
+					}
 				}
 			}
 		}
